@@ -393,8 +393,13 @@ func checkC20(c *Ctx) {
 	jdepths := []int{100, 1000, 5000, 9999, 10000, 10001, 20000, 100000}
 	var jjobs []Job
 	for _, d := range jdepths {
-		doc := strings.Repeat("[", d) + "1" + strings.Repeat("]", d)
-		jjobs = append(jjobs, Job{Kind: "run", Prog: []byte("BEGIN { print \"start\" }\n{ n = n + 1 }\nEND { print \"values\", n }\n"), Files: []FileIn{{Name: "deep.json", Data: []byte(doc)}}, Budget: 1000000, N: d})
+		// nesting made of arrays, of objects, and alternating: it is containers that are counted
+		docs := []string{strings.Repeat("[", d) + "1" + strings.Repeat("]", d),
+			strings.Repeat("{\"a\":", d) + "1" + strings.Repeat("}", d),
+			strings.Repeat("[{\"a\":", d/2) + strings.Repeat("[", d%2) + "1" + strings.Repeat("]", d%2) + strings.Repeat("}]", d/2)}
+		for _, doc := range docs {
+			jjobs = append(jjobs, Job{Kind: "run", Prog: []byte("BEGIN { print \"start\" }\n{ n = n + 1 }\nEND { print \"values\", n }\n"), Files: []FileIn{{Name: "deep.json", Data: []byte(doc)}}, Budget: 1000000, N: d})
+		}
 	}
 	pool.Map(jjobs, func(i int, r Result) {
 		d := jjobs[i].N
